@@ -438,6 +438,24 @@ def run(ctx):
         if o != exp and not (path.startswith("reader:16") and o.startswith("ERR")):
             ctx.fail("skip-wide-" + path.split(":")[0], "%s path on a document whose skipped container holds wide payloads returns %s, expected %s (bytes %s)" % (path, o[:120], exp, body.hex()), [pcases[k]], [o], exp)
 
+    # strings at the u16 length boundary inside a skipped container (implementation only: the extracted walks are quadratic in the length)
+    lcases, lmeta = [], []
+    for L in (65533, 65534, 65535):
+        for fill in (b"\x00\x04\x00", b"\x04\x00", b"\x03\x00\x04\x00\x04"):
+            pay = (fill * (L // len(fill) + 1))[:L]
+            val = D.tok(rng.choice([0x0f, 0x17])) + ID(L) + pay
+            body = D.bstr(b"unknown", False) + D.EQ + D.OPEN + D.tok(0x0c) + struct.pack("<i", 3) + val + D.tok(0x0c) + struct.pack("<i", 4) + D.CLOSE + known
+            for path in ("tape", "slice", "reader:65600:-", "reader:65600:4096,1,4095*"):
+                lcases.append("\t".join(["de.bin", path, "ignore", "map:", "raw", "struct(%s:i32)" % hx("known"), hx(body)])); lmeta.append((path, L))
+    for prof in ("release", "debug"):
+        impl, _ = ctx.correspond("skip_long_strings_" + prof, lcases, nontrivial=nt, model=False, profile=prof)
+        base = len(impl) - len(lcases)
+        exp = "(struct (%s (i 1)))" % hx("known")
+        for k, (path, L) in enumerate(lmeta):
+            o = impl[base + k]
+            if o != exp:
+                ctx.fail("skip-wide-" + path.split(":")[0], "%s build, %s path: a skipped container that holds a %d-byte string: %s, expected %s" % (prof, path, L, o[:120], exp), [lcases[k][:300]], [o[:200]], exp)
+
     # >>> a_c04 (wave 4): every Deserializer method x token kind x position x path, exact skipping at depth, size hints,
     # the remaining public entry points (props/C04_shapes.py; audit/C04.md)
     from props import C04_shapes
